@@ -48,6 +48,9 @@ def run(ctx):
                 for big in (False, True):
                     scns.append({"id": k, "transport": tr, "mode": "e2e-" + kind, "readsize": 8192, "s2c": 0, "c2s": 0, "chunk": 0, "longline": big})
                     k += 1
+        # a child that ignores hang-ups: Close has to end it for a parked read to return
+        scns.append({"id": 200000, "transport": "system", "mode": "standin-shell", "readsize": 64, "s2c": 0, "c2s": 0, "chunk": 0, "longline": False})
+        scns.append({"id": 200001, "transport": "system", "mode": "standin-netconf", "readsize": 64, "s2c": 0, "c2s": 0, "chunk": 0, "longline": False})
     res = ctx.run_harness("c16", scns, args=["-out", trace], timeout=3000)
     if len(res) != len(scns):
         raise ToolError("c16 answered %d of %d; stderr:\n%s" % (len(res), len(scns), ctx.last_stderr[-3000:]))
